@@ -155,6 +155,18 @@ pub fn gen_c17(rng: &mut Rng, run_seed: u64, miri: bool) -> Program {
         prog.phases.push(Phase { name: "after_maximum_change", reconfig: Some(next), threads, ..Default::default() });
         cur = next;
     }
+    // sometimes: two pool threads die from panicking jobs at about the same time while a third is inside a blocked body; then more work
+    // arrives on a free object: both dead threads have to be replaced (and only they), without the maximum being exceeded
+    if cur == 3 && !miri && rng.chance(1, 3) {
+        prog.n_obj = 4; prog.panics = true;
+        let p1 = prog.add_op(0, Kind::Desync, Disp::None, vec![Step::Touch, Step::Panic]);
+        let p2 = prog.add_op(1, Kind::Desync, Disp::None, vec![Step::Touch, Step::Panic]);
+        let h = prog.new_hold();
+        let hold = prog.add_op(2, Kind::Desync, Disp::None, vec![Step::Touch, Step::Hold(h), Step::Touch]);
+        let mut after = vec![];
+        for _ in 0..rng.range(2, 4) { let id = prog.add_op(3, Kind::Desync, Disp::None, vec![Step::Touch]); after.push(TAct::Op(id)); }
+        prog.phases.push(Phase { name: "two_pool_threads_die_then_more_work", threads: vec![vec![TAct::Op(p1), TAct::Op(p2), TAct::Op(hold)]], occupy: vec![h], dying_op: Some(p1), dying_op2: Some(p2), after_deaths: after, ..Default::default() });
+    } else
     // sometimes: lower the maximum and despawn while pool threads are busy in bodies that will go on to schedule more work
     if cur >= 2 && !miri && rng.chance(1, 2) {
         let k = rng.range(1, cur as u64) as usize;
